@@ -8,6 +8,9 @@ from ..astutil import (call_name, calls_in, const_value, find_func, is_self_attr
 from ..frontend import AnalysisError, Program, Module, set_parents, walk_function, walk_stmts
 from ..nf import to_nf, NFUnsupported, RF, Translator
 from ..ordertable import parse_pred
+from ..cfg import CFG
+from ..dataflow import inline_env
+from ..astutil import subst_names
 from ..report import norm_text
 from ..witness import witness, twin
 
@@ -29,6 +32,7 @@ EXPLANATION = (
     "k_1 = -slope, and k_1 is reported as -slope. Not decided: scale equivariance through the optimisers, exact recovery of "
     "synthetic curves, likelihood ordering.")
 EXPLANATION += (' R-C18-2 also requires the reported transition to be the midpoint of the lowest finite-zone load and the highest run-out load. R-C18-4 (applied to the load unit and, likewise, to the cycle unit: cycles, ND): values that carry the unit of the load (load column, finite/infinite transition, SD, ...; interprocedural typing) meet numeric constants only as comparisons with zero - a non-zero threshold or clamp makes the result depend on the load unit. R-C18-5: no analysis function writes into a caller-provided argument and no mutable default argument is ever written (effect analysis through closures).')
+EXPLANATION += (" R-C18-4 also treats rounding of a load- or cycle-typed value to a fixed number of digits or to whole numbers (round, np.round, floor, astype(int)) as a comparison with a fixed grid. R-C18-2 inlines the locals of the zone split and reports a zone selected by index labels (index.isin, drop, difference) instead of by the load of each test.")
 ASSUMPTIONS = [
     "scipy.stats.linregress and sums are invariant under a common permutation of their paired arguments",
     "pandas groupby sorts group keys by default; np.unique and the 1-D set operations return sorted arrays",
@@ -149,6 +153,17 @@ class LoadTyping:
                     for a in args:
                         if num(a) is not None:
                             out.append((n, norm_text(n), num(a) == 0))
+                # rounding to a fixed number of digits / to whole numbers is a comparison with a fixed grid of numbers
+                is_round = fn in ("round", "np.round", "np.around", "np.floor", "np.ceil", "np.rint", "np.trunc", "np.fix", "int",
+                                  "math.floor", "math.ceil")
+                if is_round and n.args and self.is_load(n.args[0], env):
+                    out.append((n, norm_text(n), False))
+                if isinstance(n.func, ast.Attribute) and n.func.attr in ("round", "floor", "ceil") and \
+                        self.is_load(n.func.value, env) and not fn.startswith(("np.", "math.")):
+                    out.append((n, norm_text(n), False))
+                if isinstance(n.func, ast.Attribute) and n.func.attr == "astype" and self.is_load(n.func.value, env) and n.args \
+                        and norm_text(n.args[0]) in ("int", "np.int64", "np.int32", "'int'", "'int64'"):
+                    out.append((n, norm_text(n), False))
         return out
 
 
@@ -169,7 +184,7 @@ def _r4(ctx):
             if ok:
                 ctx.holds(fi, node, "%s: load-typed value compared with zero only (%s)" % (fi.name, text))
             else:
-                ctx.violated(fi, node, "%s: %s compares or clamps a value that carries the load unit against a non-zero number: "
+                ctx.violated(fi, node, "%s: %s compares, clamps or rounds a value that carries the load unit against a fixed non-zero number / grid: "
                              "the analysis result changes when all loads are given in another unit (scaled)" % (fi.name, text),
                              text=text)
     ctx.holds(MODS[0], None, "%d load-typed locals/parameters traced over %d functions" % (typed, len(funcs)), {"typed": typed})
@@ -328,10 +343,25 @@ def _r2(ctx):
     f = prog.func(PKG + "fatigue_data:FatigueData._calc_finite_zone_manual")
     lim = [p for p in f.params if p != "self"][0]
     masks = {}
+    by_label = []
+    cfg_ = CFG(f.node)
     for s in f.node.body:
-        if isinstance(s, ast.Assign) and is_self_attr(s.targets[0]) and isinstance(s.value, ast.Subscript) and \
-                isinstance(s.value.slice, ast.Compare):
-            masks[s.targets[0].attr] = (s, s.value.slice)
+        if isinstance(s, ast.Assign) and is_self_attr(s.targets[0]) and s.targets[0].attr in ("_finite_zone", "_infinite_zone"):
+            env = inline_env(cfg_, s)
+            env.pop("__ambiguous__", None)
+            v = subst_names(s.value, env)
+            labels = [n for n in ast.walk(v) if (isinstance(n, ast.Attribute) and n.attr == "index") or
+                      (isinstance(n, ast.Call) and isinstance(n.func, ast.Attribute) and n.func.attr in ("drop", "difference", "reindex"))]
+            if labels:
+                by_label.append((s, v))
+            elif isinstance(v, ast.Subscript) and isinstance(v.slice, ast.Compare):
+                masks[s.targets[0].attr] = (s, v.slice, v)
+    for s, v in by_label:
+        ctx.violated(f, s, "%s is selected by index labels (%s), not by the load of each test: the index of the test data is the "
+                     "caller's and need not be unique (concatenated series, a load or specimen index), so tests are dropped from or "
+                     "duplicated in the zone" % (norm_text(s.targets[0]), norm_text(v)[:80]), text="zone by label " + s.targets[0].attr)
+    if by_label:
+        return
     if set(masks) != {"_finite_zone", "_infinite_zone"}:
         raise AnalysisError("_calc_finite_zone_manual: zone masks not found")
 
@@ -345,7 +375,7 @@ def _r2(ctx):
     q = parse_pred(masks["_infinite_zone"][1], atom)
     atoms = sorted(p.atoms | q.atoms)
     ok = atoms == sorted(["load", lim]) and all(a != b for a, b in zip(p.table(atoms), q.table(atoms)))
-    fin_src = masks["_finite_zone"][0].value.value
+    fin_src = masks["_finite_zone"][2].value
     if ok and isinstance(fin_src, ast.Attribute) and fin_src.attr == "fractures":
         ctx.holds(f, masks["_infinite_zone"][0], "load > limit (fractures) and load <= limit (all tests) are complementary")
     else:
